@@ -2,7 +2,7 @@
 import rules_c16
 from mirlite import callee, callee_res, ty_str, op_place
 from expr import show, walk, strip_ref
-from discharge import make_prover, VEx, INDEX, Lin, len_of
+from discharge import make_prover, VEx, INDEX, Lin, len_of, LEN_CALLS
 
 EXPLANATION = (
     "Byte-for-byte behaviour for each of the 65,536 lengths and tokio's own read_exact are NOT decided (the latter is "
@@ -107,16 +107,26 @@ def rest(ctx, chk, zvt, crates):
                     "the two extra length bytes are not read exactly on the marker edge (after the header)", "under header[2]==0xFF", t2.get("sp"))
     # announced length: variable `len` with two definitions
     L3 = buf_len(b3, t3)
-    lens = [l for l, loc in enumerate(b.locals) if loc.get("name") == "len" and ty_str(loc["ty"]) == "usize"]
+    # the announced length is identified structurally: the body buffer is grown by
+    # `resize(<current length> + X)`; X is the announced length (whatever the local is called)
+    lens = []
+    for rbb, rt in b.calls():
+        if callee(rt) == "alloc::vec::Vec::<T, A>::resize" and b.dominates(rbb, b3):
+            ra = vx.operand(rt["args"][1], rbb)
+            if ra[0] == "bin" and ra[1] == "Add":
+                for x, y in ((ra[2], ra[3]), (ra[3], ra[2])):
+                    if x[0] == "call" and x[1] in LEN_CALLS and y[0] == "var" and ty_str(b.locals[y[2]]["ty"]) == "usize":
+                        lens.append(y[2])
     good3 = False
     src_ok = False
     if len(lens) == 1:
-        lv = ("var", "len", lens[0], vx.version(lens[0], b3))
+        lv = ("var", vx.root_name(lens[0]), lens[0], vx.version(lens[0], b3))
         Llen = pr.lin(lv)
         g1, _ = pr.prove_nonneg(L3.add(Llen, -1), b3)
         g2, _ = pr.prove_nonneg(Llen.add(L3, -1), b3)
         good3 = g1 and g2
-        defs = [vx.rvalue(d[3]["rv"], d[0]) for d in pr.tr.defs.get(lens[0], []) if d[2] == "assign"]
+        defs = [vx.rvalue(d[3]["rv"], d[0]) if d[2] == "assign" else vx._call(d[3], d[0], 0)
+                for d in pr.tr.defs.get(lens[0], []) if d[2] in ("assign", "call")]
         kinds = set()
         for e in defs:
             calls = [x for x in walk(e) if x[0] == "call"]
